@@ -178,6 +178,47 @@ where T: EucRing + Bridge, for<'x> &'x T: EucRingOps<T>, T::O: OEuc {
         }
     }
 
+    // route 1c: homology assembled by hand on the reduced complex (public `Summand::merge`): the chain summand of
+    // c.reduced() merged with compute_homology_at must describe the same group, with generators that are cycles of
+    // the ORIGINAL complex and standard coordinates
+    if rng.chance(1, 2) {
+        let r = guarded(|| {
+            let red = c.reduced();
+            (0..=len).map(|i| { let mut s = red[i as isize].clone(); s.merge(red.compute_homology_at(i as isize, true)); s }).collect::<Vec<_>>()
+        });
+        match r {
+            Ok(ss) => {
+                for i in 0..=len {
+                    let (s, a) = (&ss[i], &h[i as isize]);
+                    let same = s.rank() == a.rank() && s.tors().len() == a.tors().len() && s.tors().iter().zip(a.tors().iter()).all(|(x, y)| x.to_o().associate(&y.to_o()));
+                    if !same { ctx.violation(&format!("C07/{tname}/merged-summand-group"), &format!("H_{i} assembled by Summand::merge on the reduced complex: rank {} torsion {:?}, homology() reports rank {} torsion {:?}", s.rank(), s.tors(), a.rank(), a.tors()), wit(i, json!(null))); return }
+                    let dim = s.rank() + s.tors().len();
+                    let tors: Vec<T::O> = s.tors().iter().map(|x| x.to_o()).collect();
+                    for k in 0..dim {
+                        match guarded(|| { let g = s.gen(k); let dg = c.d(i as isize, &g); let v = s.vectorize(&g); (dg, v) }) {
+                            Ok((dg, v)) => {
+                                if !lc_is_zero(&dg) { ctx.violation(&format!("C07/{tname}/merged-summand-gen-not-cycle"), &format!("H_{i}: generator {k} of the hand-merged summand is not a cycle of the original complex"), wit(i, json!(null))); return }
+                                let vo = spvec_to_o(&v);
+                                let ok = vo.len() == dim && (0..dim).all(|j| { let e = if j == k { T::O::o1() } else { T::O::o0() }; if j < s.rank() { vo[j] == e } else { tors[j - s.rank()].divides(&vo[j].sub(&e)) } });
+                                if !ok { ctx.violation(&format!("C07/{tname}/merged-summand-coordinates"), &format!("H_{i}: vectorize(gen({k})) of the hand-merged summand is {:?}, not the standard basis vector", vo.iter().map(|x| x.show()).collect::<Vec<_>>()), wit(i, json!(null))); return }
+                            }
+                            Err(p) => {
+                                if !unbounded && p.is_overflow() { ctx.inconclusive("overflow_machine_int"); return }
+                                ctx.violation(&format!("C07/{tname}/merged-summand-panic"), &format!("gen / vectorize of the hand-merged summand panicked: {}", p.brief()), wit(i, json!(null))); return
+                            }
+                        }
+                    }
+                }
+                ctx.count("hand_merged_summands_checked", (len + 1) as i64);
+            }
+            Err(p) => {
+                if !unbounded && p.is_overflow() { ctx.inconclusive("overflow_machine_int"); return }
+                ctx.violation(&format!("C07/{tname}/merged-summand-panic"), &format!("reduced() / compute_homology_at / Summand::merge panicked: {}", p.brief()), wit(0, json!(null)));
+                return
+            }
+        }
+    }
+
     // route 2: HomologyCalc on a middle pair, checking the transfer matrices with the oracle's arithmetic
     if len >= 2 {
         let i = rng.urange(1, len - 1);
